@@ -1,6 +1,7 @@
 CONSTANTS
 NS = 2
 MaxEv = 4
+MaxUA = 1
 AllowConnLost = FALSE
 Mutant = 0
 INIT Init
